@@ -61,7 +61,7 @@ func sym(f *xlib.File, e ast.Expr, env map[string]string) string {
 		switch {
 		case strings.HasSuffix(fn, "ExpandHomePath") && len(x.Args) == 1:
 			return sym(f, x.Args[0], env) // keeps the leading ~
-		case fn == "filepath.Join" || fn == "path.Join" || fn == "filepath.Join":
+		case fn == "filepath.Join" || fn == "path.Join":
 			parts := []string{}
 			for _, a := range x.Args {
 				parts = append(parts, sym(f, a, env))
@@ -565,5 +565,17 @@ func main() {
 		return true
 	})
 	out.Def("readConfigSeq", "List String", xlib.LeanStrList(seq))
+	// cli.Version.UnmarshalFlag is applied to the value a lower layer left behind: does it assign IsGTE on every call
+	// (top-level statement of the function), or only ever turn it on inside the `>=` branch?
+	cf := xlib.Parse("src/cli/flags.go")
+	uf := cf.Func("Version.UnmarshalFlag")
+	resets := false
+	for _, st := range uf.Body.List {
+		if as, ok := st.(*ast.AssignStmt); ok && len(as.Lhs) == 1 && strings.HasSuffix(cf.Src(as.Lhs[0]), ".IsGTE") {
+			resets = true
+		}
+	}
+	out.Def("versionResetsGTE", "Bool", xlib.LeanBool(resets))
+
 	out.Write()
 }
